@@ -4,34 +4,34 @@ import json, subprocess, sys
 CLAIMED = {
  "C11": dict(level="fault_enumeration", tech="deterministic simulation: scripted reader seam (short reads, EINTR, hard errors, early EOF) with per-call-index fault enumeration; seeded plans, shrinking, exact replay",
    text="Seeded simulation of update_reader / io::copy / Write over a scripted reader: per base plan every fault kind is enumerated at every call index 0..48, plus random fault scripts; file half compares update_mmap, update_mmap_rayon and update_reader(File) on scratch files around the 16 KiB threshold. Sampling over sources and scripts, enumeration over fault positions: evidence, not proof.",
-   note="Trusted: the crate's one-shot functions as oracle for 'hash of exactly the yielded bytes' (as the property words it), std::io::copy, the kernel VFS for scratch files.", ref="DESIGN.md §3 C11"),
+   note="Trusted: the crate's one-shot functions as oracle for 'hash of exactly the yielded bytes' (as the property words it), std::io::copy, the kernel VFS for scratch files. A lean build (blake3 with rayon and mmap but without zeroize and serde, debug assertions and overflow checks off: the production-like configuration) re-runs 30% of the plans.", ref="DESIGN.md §3 C11"),
  "C02": dict(level="exploration", tech="deterministic simulation: seeded delivery scripts over the update/Write/Read/rayon/mmap/Join seams, caller tasks interleaved by a baton scheduler at every kernel dispatch; shrinking and exact replay",
    text="Seeded search over histories {absorb via any adapter, count, finalize, finalize_xof, clone, move between tasks, concurrent finalize of one &Hasher} on 1-3 hashers in 1-4 simulated caller tasks; after every call count() and every output are compared with the crate's one-shot function (and a single-update twin beyond 32 bytes) on exactly the bytes that instance absorbed. Sampling: evidence, not proof.",
-   note="Trusted: the crate's one-shot functions as oracle (the property's own wording); baton scheduler interleaves only at hook sites (kernel dispatch, reader calls, op boundaries, join splits).", ref="DESIGN.md §3 C02"),
+   note="Trusted: the crate's one-shot functions as oracle (the property's own wording); baton scheduler interleaves only at hook sites (kernel dispatch, reader calls, op boundaries, join splits). A lean build (blake3 with rayon and mmap but without zeroize and serde, debug assertions and overflow checks off: the production-like configuration) re-runs 30% of the plans.", ref="DESIGN.md §3 C02"),
  "C03": dict(level="exploration", tech="deterministic simulation: seeded read/seek histories with injected failing seeks against a sparse SpecModel stream; readers cloned and moved between simulated tasks; shrinking and exact replay",
    text="Seeded search over OutputReader histories (fill, Read adapters, set_position, seek incl. seeks that must fail, clone, hand-over between tasks) at positions across the whole 2^64-1 range with spikes at block counter 2^32 and the stream end; every byte is compared with the SpecModel root compression for its block index.",
-   note="Trusted: SpecModel (independent implementation of the paper pinned by frozen official vectors). Forward seeks beyond 2^64-1 are outside the property and never generated.", ref="DESIGN.md §3 C03"),
+   note="Trusted: SpecModel (independent implementation of the paper pinned by frozen official vectors). Forward seeks beyond 2^64-1 are outside the property and never generated. A lean build (blake3 with rayon and mmap but without zeroize and serde, debug assertions and overflow checks off: the production-like configuration) re-runs 30% of the plans.", ref="DESIGN.md §3 C03"),
  "C10": dict(level="exploration", tech="deterministic simulation: hasher pool with client cancellation at arbitrary operations (crash points), reset and reuse, lockstep fresh twin as reference model; shrinking and exact replay",
    text="Seeded search over pool histories: clients run random prefixes (offsets, any adapter, finalize variants, clones) and are cancelled at an arbitrary operation; after reset() the next client's operations run in lockstep on a freshly constructed twin and must agree in count and every result; no in-domain operation may panic. Found and fixed: reset() kept a hazmat input offset.",
-   note="Trusted: fresh-twin comparison + crate one-shot functions; SpecModel for non-root chaining values.", ref="DESIGN.md §3 C10"),
+   note="Trusted: fresh-twin comparison + crate one-shot functions; SpecModel for non-root chaining values. A lean build (blake3 with rayon and mmap but without zeroize and serde, debug assertions and overflow checks off: the production-like configuration) re-runs 30% of the plans.", ref="DESIGN.md §3 C10"),
  "C04": dict(level="exploration", tech="deterministic simulation: exact replay of the same seeded plans under every forced SIMD level (detect() hook) and every build flavour; per-operation result digests must coincide; shrinking and exact replay",
    text="The C02/C03/C08/C11 plan families are re-executed, same seeds, once per SIMD level (Portable, SSE2, SSE4.1, AVX2, AVX-512, real detection) and the per-operation digests compared; a mismatch is shrunk like any violation and the replay names the two configurations. Sampling over plans; complete over the levels this CPU and build can run.",
    note="Trusted: hook H1 selects what stock detection would select (cross-checked against no_* feature builds in the thorough tier). MSVC .asm, NEON, wasm32 kernels are outside the claim.", ref="DESIGN.md §3 C04"),
  "C08": dict(level="exploration", tech="deterministic simulation: scripted Join hook decides left-first/right-first/concurrent per recursive split; concurrent halves are child tasks interleaved by a seeded baton scheduler at every kernel dispatch; real rayon pools as a second engine; shrinking and exact replay",
    text="Seeded search over split-order assignments and interleavings of update_with_join (the generic function update_rayon instantiates) plus real rayon pools of width 1,2,4,16 and update_mmap_rayon; state after the call must equal what serial update leaves (count, finalize, XOF, continuation).",
-   note="Interleaving granularity is the kernel dispatch (hook H2). The C entry point blake3_hasher_update_tbb is covered by the C06 check's TBB-seam family.", ref="DESIGN.md §3 C08"),
+   note="Interleaving granularity is the kernel dispatch (hook H2). The C entry point blake3_hasher_update_tbb is covered by the C06 check's TBB-seam family. Auxiliary parts: a lean build (blake3 without zeroize/serde, no debug assertions) re-runs 30% of the plans; a ThreadSanitizer tier runs the C library on real threads over disjoint instances (a monitor on seeded programs, not a controlled interleaving).", ref="DESIGN.md §3 C08"),
  "C09": dict(level="exploration", tech="deterministic simulation: simulated cluster of subtree workers and a coordinator over an in-memory transport with worker crash/restart, duplicated and reordered chaining-value messages; giant virtual offsets; SpecModel oracle; shrinking and exact replay",
    text="Seeded search over tree decompositions, worker assignment, per-shard update fragmentation and injected faults (crash mid-shard and recomputation, duplicate/reordered delivery); every shard CV and merge is compared with SpecModel and the root with the crate's one-shot function; the length helpers are compared with their closed forms on walks from virtual lengths up to 2^64-1. Found and fixed: left_subtree_len(u64::MAX) overflowed.",
-   note="Trusted: SpecModel; real bytes are hashed only in windows <= 64 KiB at giant offsets.", ref="DESIGN.md §3 C09"),
+   note="Trusted: SpecModel; real bytes are hashed only in windows <= 64 KiB at giant offsets. A lean build (blake3 with rayon and mmap but without zeroize and serde, debug assertions and overflow checks off: the production-like configuration) re-runs 30% of the plans. Keys, contexts and chaining values are passed from reused per-thread buffers after a decoy call at the same address (results must not depend on where an argument lives).", ref="DESIGN.md §3 C09"),
  "C16": dict(level="exploration", tech="deterministic simulation: the API surface of every step of a seeded history is a knob (RustCrypto traits vs inherent), lockstep twin after resetting variants; legacy guts API as cluster workers; shrinking and exact replay",
    text="Seeded search over histories issued through Update/Digest/Mac/FixedOutput(Reset)/ExtendableOutput(Reset)/XofReader/Reset/KeyInit with the inherent-API semantics as oracle (including the state left behind by *_reset, observed through the continuation and a fresh twin); guts::ChunkState/parent_cv trees compared node by node with SpecModel.",
-   note="Trusted: inherent API semantics (decided by C02/C03/C10), SpecModel.", ref="DESIGN.md §3 C16"),
+   note="Trusted: inherent API semantics (decided by C02/C03/C10), SpecModel. A lean build (blake3 with rayon and mmap but without zeroize and serde, debug assertions and overflow checks off: the production-like configuration) re-runs 30% of the plans.", ref="DESIGN.md §3 C16"),
  "C17": dict(level="exploration", tech="deterministic simulation with self-composition: the same seeded plan is replayed exactly with all secrets swapped; Debug text and post-zeroize memory snapshots at plan-chosen probe instants must not depend on the secrets; shrinking and exact replay",
    text="Seeded search over histories with probe instants (format Debug / snapshot-zeroize-snapshot of the live object); in-run oracle (no secret word rendered, no 8 non-zero bytes survive) plus self-composition (byte-identical text, no 8-byte window of memory differing between the two secret assignments).",
-   note="Relies on padding < 8 bytes in these types and on reading object memory through raw pointers in a release build.", ref="DESIGN.md §3 C17"),
+   note="Relies on padding < 8 bytes in these types and on reading object memory through raw pointers in a release build. A lean build (blake3 with rayon and mmap but without zeroize and serde, debug assertions and overflow checks off: the production-like configuration) re-runs 30% of the plans.", ref="DESIGN.md §3 C17"),
  "C18": dict(level="exploration", tech="deterministic simulation: 2-6 simulated caller tasks on disjoint instances, each at its own forced SIMD level, interleaved by a seeded baton scheduler at every kernel dispatch/detect/reader call; Solo oracle (each task re-run alone); one process per search shard; shrinking and exact replay",
    text="Seeded search over interleavings of complete operation sequences on disjoint Hasher/OutputReader instances and one-shot calls; every operation must return the bytes it returns when its task runs alone. The Rust detection cache cannot be put under the scheduler; the first-use family (fresh process, tasks on real threads released together) and the Miri tier (seeded scheduler, preemption at any basic block; a 40-interleaving batch in quick, ~220 in thorough, including clones of one reader/hasher handed to several threads) look below the dispatch granularity. Shared-file family: independent hashers on several tasks hash the same path (update_mmap_rayon on a one-thread pool adopted by the calling task).",
-   note="Interleaving granularity is the hook sites; C instances join in the C06/C18-C families.", ref="DESIGN.md §3 C18"),
+   note="Interleaving granularity is the hook sites; C instances join in the C06/C18-C families. Auxiliary parts: lean build; Miri batches (std and no_std builds of the crate); a native stress batch and (thorough) a ThreadSanitizer tier on real threads, which are monitors on seeded programs rather than controlled interleavings.", ref="DESIGN.md §3 C18"),
  "C06": dict(level="exploration", tech="deterministic simulation: the C library as a node driven through blake3_hasher_* by seeded histories (update fragmentation, finalize/finalize_seek/reset/struct-copy interleavings, per-run CPU feature mask, scripted TBB join seam); SpecModel and the Rust crate as twin oracles; shrinking and exact replay",
    text="Seeded search over C API histories on both kernel flavours (assembly and C intrinsics, compiled from the working tree) under random subsets of the detected feature mask; every output is compared with SpecModel and with the Rust crate on the same history; finalize must leave the hasher fields unchanged, reset must restore the initial fields, the two derive-key initialisers must agree, zero-length calls are no-ops, canaries guard every output buffer.",
    note="Trusted: SpecModel; BLAKE3_TESTING exposes g_cpu_features; oneTBB is absent, its contract is played by the simulator's join seam. Windows/MSVC/NEON builds are outside the claim.", ref="DESIGN.md §3 C06"),
@@ -43,7 +43,7 @@ CLAIMED = {
    note="'For arbitrary text' is a statement about a pure function: the simulator only reaches the neighbourhood of real records that storage damage produces (single edits, byte-preserving overwrites, truncations).", ref="DESIGN.md §3 C13"),
  "C07": dict(level="exploration", tech="deterministic simulation of the memory environment: seeded plans place every caller-visible buffer flush against PROT_NONE pages (GuardAlloc), call every kernel flavour through register-sentinel trampolines (SysV and Win64), fatal signals are captured as crash records and replayed in child processes; shrinking and exact replay",
    text="Seeded search over direct kernel calls (unix asm, windows-gnu asm via a Win64 trampoline, C intrinsics, portable C, the crate's own kernels) and over C / Rust API histories, with inputs, input-pointer arrays, keys, blocks, outputs and hasher objects guard-placed; monitors: SIGSEGV/SIGBUS on guard pages, canaries, callee-saved registers / rsp / DF at four stack alignments; the same C API histories are replayed against an ASan+UBSan build of the C library, and (thorough) the unsafe Rust intrinsics run under Miri. One genuine finding is listed (not repaired): the AVX2/AVX-512 assembly tail paths of hash_many read 16-48 bytes past the end of their first (and third) input.",
-   note="Monitors observe seeded, replayable executions; reads inside the caller's own larger allocation are invisible unless the guard page is adjacent; UB without a memory/register/signal trace is not seen. MSVC .asm, NEON, wasm32 are outside the claim.", ref="DESIGN.md §3 C07"),
+   note="Monitors observe seeded, replayable executions; reads inside the caller's own larger allocation are invisible unless the guard page is adjacent; UB without a memory/register/signal trace is not seen. MSVC .asm, NEON, wasm32 are outside the claim. Auxiliary parts: the pure build, an ASan/UBSan replay of the C API histories on builds with none/some/all BLAKE3_NO_* switches, sizes above 2^32 (one finalize / one update), and in thorough the Rust intrinsics under Miri.", ref="DESIGN.md §3 C07"),
 }
 NA = {
  "C01": "one-shot hash/keyed_hash/derive_key are pure functions of their arguments: no history, schedule, clock or fault exists for a simulator to control; input search alone would be fuzzing, a different technique family",
